@@ -12,18 +12,17 @@ EXTENDS Lexer
 Rep(c, k) == [j \in 1..(IF k > 0 THEN k ELSE 0) |-> c]
 Indent(k) == Rep("SP", 2 * k)
 
-RECURSIVE FmtFrom(_, _, _, _, _, _)
-FmtFrom(s, i, prev, ind, out, stringAware) ==
-  LET n == Len(s) IN
-  IF i > n THEN out
-  ELSE LET c == s[i] IN
+\* one iteration of the formatter's loop: state st = [i, prev, ind, out] (cursor, previous syntax class, indentation
+\* level, output so far); every arm moves the cursor forward
+FmtStep(s, st, stringAware) ==
+  LET n == Len(s)  i == st.i  prev == st.prev  ind == st.ind  out == st.out  c == s[i] IN
     IF c \in {"(", "["} THEN
-       FmtFrom(s, i + 1, "left", ind + 1,
-               out \o (IF prev = "cmt" THEN Indent(ind) ELSE <<"NL">> \o Indent(ind)) \o <<c>>, stringAware)
+       [i |-> i + 1, prev |-> "left", ind |-> ind + 1,
+        out |-> out \o (IF prev = "cmt" THEN Indent(ind) ELSE <<"NL">> \o Indent(ind)) \o <<c>>]
     ELSE IF c \in {")", "]"} THEN
-       FmtFrom(s, i + 1, "right", ind - 1,
-               out \o (IF prev = "cmt" THEN Indent(ind - 1) ELSE <<>>) \o <<c>>, stringAware)
-    ELSE IF IsSpace(c) THEN FmtFrom(s, i + 1, IF prev = "cmt" THEN prev ELSE "space", ind, out, stringAware)
+       [i |-> i + 1, prev |-> "right", ind |-> ind - 1,
+        out |-> out \o (IF prev = "cmt" THEN Indent(ind - 1) ELSE <<>>) \o <<c>>]
+    ELSE IF IsSpace(c) THEN [i |-> i + 1, prev |-> (IF prev = "cmt" THEN prev ELSE "space"), ind |-> ind, out |-> out]
     ELSE IF c = ";" THEN
        LET RECURSIVE back(_)
            back(j) == IF j < 1 THEN <<>>
@@ -34,15 +33,20 @@ FmtFrom(s, i, prev, ind, out, stringAware) ==
            RECURSIVE endc(_)
            endc(j) == IF j > n THEN n ELSE IF s[j] = "NL" THEN j ELSE endc(j + 1)
            e == endc(i)
-       IN FmtFrom(s, e + 1, "cmt", ind, out \o pre \o SubSeq(s, i, e), stringAware)
+       IN [i |-> e + 1, prev |-> "cmt", ind |-> ind, out |-> out \o pre \o SubSeq(s, i, e)]
     ELSE LET lead == (IF prev = "cmt" THEN Indent(ind) ELSE <<>>)
                      \o (IF prev \in {"space", "right"} THEN <<"SP">> ELSE <<>>)
          IN IF stringAware /\ c = "Q"
             THEN LET RECURSIVE endq(_)
                      endq(j) == IF j > n THEN n ELSE IF s[j] = "Q" THEN j ELSE endq(j + 1)
                      e == endq(i + 1)
-                 IN FmtFrom(s, e + 1, "normal", ind, out \o lead \o SubSeq(s, i, e), stringAware)
-            ELSE FmtFrom(s, i + 1, "normal", ind, out \o lead \o <<c>>, stringAware)
+                 IN [i |-> e + 1, prev |-> "normal", ind |-> ind, out |-> out \o lead \o SubSeq(s, i, e)]
+            ELSE [i |-> i + 1, prev |-> "normal", ind |-> ind, out |-> out \o lead \o <<c>>]
+
+FmtInit == [i |-> 1, prev |-> "normal", ind |-> 0, out |-> <<>>]
+RECURSIVE FmtRun(_, _, _)
+FmtRun(s, st, stringAware) == IF st.i > Len(s) THEN st.out ELSE FmtRun(s, FmtStep(s, st, stringAware), stringAware)
+FmtFrom(s, i, prev, ind, out, stringAware) == FmtRun(s, [i |-> i, prev |-> prev, ind |-> ind, out |-> out], stringAware)
 
 Format(s, stringAware) == TrimL(TrimR(FmtFrom(s, 1, "normal", 0, <<>>, stringAware)))
 
